@@ -61,6 +61,7 @@ def run_job(job):
             res.ev()
             return runner.run([q], cwd=w, home=home)
 
+        pool = []
         for qi in range(job["queries"]):
             inner = rng.choice(INNERS)
             if shape in ("big", "wide") and inner == "line_count":
@@ -106,6 +107,7 @@ def run_job(job):
                 arg = "*" if (fn == "count" and rng.random() < 0.6) else inner
                 cols.append("%s(%s)" % (name, arg))
             q = "%s from %s%s into list" % (", ".join(cols), frm, wtxt)
+            pool.append(q)
             r = run(q)
             ctx = {"query": q, "row_query": q0, "values": values[:50], "result": r.brief()}
             if r.verdict != "ok":
@@ -162,6 +164,10 @@ def run_job(job):
                 if len(values) >= 1:
                     res.nt("%s|%s|%s|%d" % (",".join(sorted(fns)), inner, where, len(values)))
                 res.sample({"query": q, "cells": [c.decode() for c in out], "rows": len(values)}, cap=3)
+        # history: in interactive mode (`fselect -i`) the same queries run in one process, one after the other - each must
+        # print what it prints when run alone
+        if len(pool) >= 2 and job.get("session", True):
+            runner.session_matches(res, rng.sample(pool, min(4, len(pool))), w, home, "aggregate queries")
     finally:
         runner.rm_scratch(sc)
     return res
